@@ -677,6 +677,17 @@ pub fn unreached_failures(prop: &str) -> (u64, Vec<Violation>) {
         ("for over nothing", "for e in [0; 0]~ { return OP }; return -1", false),
         ("uncalled function", "h := () -> any { return OP }; return -1", false),
         ("after return", "if !c2 { return -1 }; return OP", true),
+        // positions evaluated on the way to a decision: reaching them fails the whole construct
+        ("match value-arm candidate", "if !c2 { return -1 }; r := match 5 { (OP) => 1, => 2, }; return r", true),
+        ("second value-arm candidate", "if !c2 { return -1 }; r := match 5 { 4 => 0, (OP) => 1, => 2, }; return r", true),
+        ("value-arm candidate inside a tuple", "if !c2 { return -1 }; r := match (5, 6) { (5, OP) => 1, => 2, }; return r", true),
+        ("match scrutinee", "if !c2 { return -1 }; r := match OP { 1 => 1, => 2, }; return r", true),
+        ("if-set subject", "if !c2 { return -1 }; if q: int = OP { return 1 }; return 2", true),
+        ("while-set subject", "if !c2 { return -1 }; while q: int = OP { return 1 }; return 2", true),
+        ("if condition operand", "if !c2 { return -1 }; if (OP) == (OP) { return 1 }; return 2", true),
+        ("for source element", "if !c2 { return -1 }; for e in [OP]~ { return 1 }; return 2", true),
+        ("argument of a constant function", "if !c2 { return -1 }; k := (x: any) -> int { return 7 }; return k(OP)", true),
+        ("tuple / array / struct component", "if !c2 { return -1 }; r := ((OP, 1), [OP], struct{ a := OP }); return 2", true),
     ];
     let interp = Interpreter::with_stdlib();
     let mut out = Vec::new();
